@@ -23,6 +23,8 @@ Extends the description language of `gen/desc.py` (kinds 'v', 'D', 'd', 'L',
                                       and hostile (OPAQUE_EQ: always / never / by one
                                       attribute / ambiguous truth value / raising)
   ['kp', [key...]]                    pg.KeyPath(keys)
+  ['inf']                             pg.symbolic.ValueFromParentChain(): a member whose value
+                                      is inferred from the same-named member of an ancestor
   ['dnaspec', desc]                   pg.dna_spec(build(desc)): the DNASpec of a search space
                                       given as a value (dicts / lists with hyper values)
 ('O' / 'P' also name the classes of this module: EqAlways, EqByField, EqNever,
@@ -430,7 +432,7 @@ def has_code_fn(d):
 UNTYPED = ['Any2', 'Writable', 'Notifier', 'Bound', 'NoSymCmp']
 FAMILIES = [('prim', 6), ('container', 30), ('object', 16), ('typed-root', 7),
             ('symbol', 5), ('spec', 14), ('schema', 5), ('space', 8), ('dna', 9),
-            ('function', 9), ('usereq', 8), ('keypath', 8)]
+            ('function', 9), ('usereq', 8), ('keypath', 8), ('inferred', 3)]
 
 
 # -- generation ---------------------------------------------------------------
@@ -540,7 +542,20 @@ def gen_typed_root(rng):
           if isinstance(v, dict if kind == 'dict' else list) and SG._plain(v)
           and SG.accepts(spec, v)[0]]
     if ok:
-      return ['TD' if kind == 'dict' else 'TL', sd, copy.deepcopy(rng.choice(ok))]
+      v = copy.deepcopy(rng.choice(ok))
+      if kind == 'dict' and sd.get('fields') and rng.random() < 0.5:
+        # members that have the default value of their field (constant and
+        # dynamic keys)
+        consts = [n for n, _ in sd['fields'] if n != '*']
+        for n, fs in sd['fields']:
+          if 'default' in fs:
+            key = n if n != '*' else rng.choice(
+                [a for a in v if a not in consts] + ['dk%d' % rng.randint(0, 2)])
+            v2 = dict(v)
+            v2[key] = copy.deepcopy(fs['default'][1])
+            if SG.accepts(spec, v2)[0]:
+              v = v2
+      return ['TD' if kind == 'dict' else 'TL', sd, v]
   return ['TL', {'k': 'list', 'el': {'k': 'int', 'min': None, 'max': None},
                  'min': None, 'max': None}, [1, 2]]
 
@@ -653,6 +668,45 @@ def gen_usereq(rng):
   return d
 
 
+def gen_inferred(rng):
+  """A tree with members whose value is inferred from an ancestor: the source
+  (a member of that name) sits in the root dict, the inferential members in
+  objects / dicts one to three levels below it."""
+  name = rng.choice(['x', 'y'])
+  def holder(depth):
+    r = rng.random()
+    if r < 0.5:
+      cls = rng.choice(['Any2', 'Writable', 'Notifier'])
+      other = 'y' if name == 'x' else 'x'
+      fields = [[name, ['inf']]]
+      if rng.random() < 0.6:
+        fields.append([other, wrap(depth - 1) if depth > 0 and rng.random() < 0.4
+                       else gen_any(rng, 1)])
+      rng.shuffle(fields)
+      return ['O', cls, fields]
+    fields = [[name, ['inf']]]
+    if rng.random() < 0.6:
+      fields += [[k, v] for k, v in _fields(rng, 2, lambda: gen_any(rng, 1)) if k != name]
+    rng.shuffle(fields)
+    return ['D', fields]
+  def wrap(depth):
+    h = holder(depth)
+    r = rng.random()
+    if r < 0.25:
+      return ['L', [h] + [gen_leaf(rng) for _ in range(rng.randint(0, 1))]]
+    if r < 0.45:
+      return ['D', [['in', h]]]
+    if r < 0.55:
+      return ['O', 'Any2', [['y' if name == 'x' else 'x', h]]]
+    return h
+  fields = [[name, gen_any(rng, 1) if rng.random() < 0.5 else ['v', rng.randint(0, 9)]],
+            ['h', wrap(2)]]
+  if rng.random() < 0.4:
+    fields.append(['g', wrap(1)])
+  rng.shuffle(fields)
+  return ['D', fields]
+
+
 def gen_kp(rng):
   n = rng.choice([0, 1, 1, 2, 2, 3, 4])
   return ['kp', [rng.choice(KP_KEYS) if rng.random() < 0.8 else rng.choice(V.SAFE_KEYS)
@@ -680,7 +734,9 @@ def gen_hyper_tree(rng, depth=2, top=True):
     return ['L', [member() for _ in range(rng.randint(1, 2))]]
   keys = []
   for _ in range(rng.randint(1, 3)):
-    k = rng.choice(KP_KEYS) if rng.random() < 0.75 else rng.choice(V.SAFE_KEYS)
+    r = rng.random()
+    k = (rng.choice([-1, -2, -7, -10**6]) if r < 0.22 else
+         rng.choice(KP_KEYS) if r < 0.8 else rng.choice(V.SAFE_KEYS))
     if k not in keys:
       keys.append(k)
   return ['D', [[k, member()] for k in keys]]
@@ -690,8 +746,14 @@ def gen_keypath(rng):
   """pg.KeyPath values in typed and untyped slots; DNASpecs of search spaces
   whose decision points sit under the same kinds of key."""
   r = rng.random()
-  if r < 0.3:
-    return ['dnaspec', gen_hyper_tree(rng)]
+  if r < 0.22:
+    # (small: building a geno spec costs ~5 ms per decision point, and a
+    # candidate of a multi-choice is built once per choice)
+    for _ in range(20):
+      t = gen_hyper_tree(rng, rng.choice([0, 1, 1, 2]))
+      if sum(3 if x[1] == 'manyof' else 1 for x in _all(t) if x[0] == 'H') <= 4:
+        return ['dnaspec', t]
+    return ['dnaspec', ['D', [[rng.choice(KP_KEYS), ['H', 'oneof', [['v', 0], ['v', 1]]]]]]]
   kp = gen_kp(rng)
   if r < 0.36:
     return kp
@@ -754,6 +816,8 @@ def gen_value(rng, family=None):
       d = gen_usereq(rng)
     elif family == 'keypath':
       d = gen_keypath(rng)
+    elif family == 'inferred':
+      d = gen_inferred(rng)
     else:
       raise ValueError(family)
     if any(x[0] == 'H' for x in _all(d)) and has_nan(d):
@@ -832,6 +896,8 @@ def build(d):
     return OPAQUE_EQ[d[1]](d[2], d[3])
   if k == 'kp':
     return pg.KeyPath(list(d[1]))
+  if k == 'inf':
+    return pg.symbolic.ValueFromParentChain()
   if k == 'dnaspec':
     return pg.dna_spec(build(d[1]))
   if k == 'F':
@@ -1094,13 +1160,26 @@ def shrinks(d):
       if repr(inner) != "['v', 0]":
         e = [s[0], ['v', 0]] if k in ('D', 'd') else ['v', 0]
         out.append([k, d[1][:i] + [e] + d[1][i + 1:]])
-    if k in ('D', 'd'):
+    if k in ('D', 'd') and not has_kind(d, ('inf',)):
+      # (not with inferential members: their names refer to names of ancestors)
       for i, (kk, vv) in enumerate(d[1]):
         if kk != 'k' and all(o[0] != 'k' for o in d[1]):
           out.append([k, d[1][:i] + [['k', vv]] + d[1][i + 1:]])
     if k in ('d', 'l'):
       out.append([k.upper(), d[1]])
     return out
+  if k in ('O', 'P') and d[1] in ('EqAlways', 'EqByField') and (k == 'P' or d[1] == 'EqAlways'):
+    # another value that is equal to everything it is compared with
+    out.append(['oeq', 'always', 0, None])
+  if k == 'O' and d[1] == 'Bookmark':
+    # a path of another slot (typed list / dict member) in the plain typed slot
+    for name, x in d[2]:
+      if name != 'where':
+        out += [['O', 'Bookmark', [['where', y]]] for y in _all(x) if y[0] == 'kp']
+  if (k in ('O', 'P') and d[1] in UNTYPED and d[1] != 'Any2'
+      and (has_user_eq(d) or has_kind(d, ('kp', 'inf')))):
+    # the plain untyped class (same fields) as the holder
+    out.append([k, 'Any2', d[2]])
   if k in ('O', 'P'):
     for i in range(len(d[2])):
       out.append([k, d[1], d[2][:i] + d[2][i + 1:]])
@@ -1210,6 +1289,8 @@ def shrinks(d):
       out.append(['oeq', d[1], 0, None])
     if d[1] != 'always':
       out.append(['oeq', 'always', d[2], d[3]])
+    if d[1] == 'raises':
+      out.append(['oeq', 'ambiguous', d[2], d[3]])
     return out
   if k == 'kp':
     keys = d[1]
@@ -1341,6 +1422,8 @@ def default_class(d, depth=0):
     return 'opaque'
   if k == 'kp':
     return 'keypath'
+  if k == 'inf':
+    return 'object'
   if k in ('spec', 'specx', 'field', 'schema', 'schema2'):
     return 'spec'
   if k in ('space', 'dna', 'dnaspec'):
@@ -1359,6 +1442,13 @@ def default_class(d, depth=0):
 def kind(d, depth=0):
   """Class of input of a description, from harness facts only."""
   k = d[0]
+  if depth == 0 and k != 'inf' and has_kind(d, ('inf',)):
+    # what holds the inferential members (whatever else the tree has)
+    holders = sorted({'object' if s[0] in ('O', 'P') else kind([s[0], []])[:4]
+                      for s in _all(d) if any(x[0] == 'inf' for x in subdescs(s))})
+    return 'inferred-member-of(' + ','.join(holders) + ')'
+  if k == 'inf':
+    return 'inferred-from-parent'
   if k == 'v':
     return _prim_kind(d[1])
   if k == 't':
@@ -1398,6 +1488,9 @@ def kind(d, depth=0):
     if depth >= 2 or not d[2] or d[1] not in SHOW_MEMBERS:
       return name
     inner = sorted({kind(s, depth + 1) for _, s in d[2]})
+    if d[1] == 'Bookmark' and len(inner) > 1:
+      # (`where` is required: the root path is what is left of it when it does not matter)
+      inner = [x for x in inner if x != 'keypath-root']
     return f"{name}({','.join(inner[:2])})"
   if k == 'fn':
     if depth >= 2:
@@ -1464,6 +1557,8 @@ def show(d):
       return f'{OPAQUE_EQ[d[1]].__name__}({d[2]!r}, {d[3]!r})'
     if k == 'kp':
       return f'KeyPath({d[1]!r})'
+    if k == 'inf':
+      return 'ValueFromParentChain()'
     if k == 'dnaspec':
       return f'dna_spec({show(d[1])})'
     if k == 'H':
